@@ -176,8 +176,34 @@ enum Plan {
     Str(usize, usize),
     Block(usize),
     Err(i64, i64),
+    Enum(RespFmt),
+    List(Vec<i32>),
     Bad,
     Raw,
+}
+
+/// a derived enum whose variants have numeric suffixes (response = short form + suffix)
+#[derive(Clone, Copy, PartialEq, Debug, scpi_derive::ScpiEnum)]
+pub enum RespFmt {
+    #[scpi(mnemonic = b"BINary")]
+    Binary,
+    #[scpi(mnemonic = b"ASCii2")]
+    Ascii2,
+    #[scpi(mnemonic = b"L125")]
+    L125,
+    #[scpi(mnemonic = b"CHANnel12345")]
+    Chan12345,
+}
+
+thread_local! {
+    static ALT: Cell<u32> = const { Cell::new(0) };
+}
+fn alt() -> u32 {
+    ALT.with(|a| {
+        let v = a.get();
+        a.set(v.wrapping_add(1));
+        v
+    })
 }
 
 fn plan_item(it: &[u8]) -> Plan {
@@ -211,15 +237,29 @@ fn plan_item(it: &[u8]) -> Plan {
             }
         }
     }
+    // the response text of a derived enum (table written here, not derived from the library's formatter)
+    for (text, v) in [(&b"BIN"[..], RespFmt::Binary), (b"ASC2", RespFmt::Ascii2), (b"L125", RespFmt::L125), (b"CHAN12345", RespFmt::Chan12345)] {
+        if it == text {
+            return Plan::Enum(v);
+        }
+    }
+    // a comma-joined list of integers
+    if it.contains(&b',') && !it.contains(&b'"') {
+        let parts: Vec<Option<i32>> = s.split(',').map(|p| p.parse::<i32>().ok().filter(|v| format!("{v}") == p)).collect();
+        if parts.len() >= 2 && parts.iter().all(|p| p.is_some()) {
+            return Plan::List(parts.into_iter().map(|p| p.unwrap()).collect());
+        }
+    }
     // an error/event queue item `code,"message[;extended]"` (expected text assembled here, not by the library's formatter)
     if it.contains(&b',') {
         for (code, ext) in [(-113i64, 0i64), (-171, 1), (-350, 0), (7, 2), (-222, 1), (0, 0)] {
             let e = mk_error(code, ext);
             let mut want = format!("{code},\"").into_bytes();
-            want.extend_from_slice(e.get_message());
+            let dbl = |s: &[u8]| -> Vec<u8> { s.iter().flat_map(|c| if *c == b'"' { vec![b'"', b'"'] } else { vec![*c] }).collect() };
+            want.extend_from_slice(&dbl(e.get_message()));
             if let Some(x) = e.get_extended() {
                 want.push(b';');
-                want.extend_from_slice(x);
+                want.extend_from_slice(&dbl(x));
             }
             want.push(b'"');
             if want == it {
@@ -240,7 +280,25 @@ fn write_item(r: &mut ResponseUnit, it: &[u8]) {
             let e = own(|| mk_error(code, ext));
             r.data(e)
         }
-        Plan::Bad => r.data(&b"caf\xc3\xa9"[..]),      // a string datum with non-ASCII bytes cannot be formatted
+        Plan::Enum(v) => r.data(v),
+        Plan::List(v) => {
+            // alternately through the growable and the fixed-capacity list type
+            if alt() % 2 == 0 {
+                let mut av = ArrayVec::<i32, 8>::new();
+                for x in v.iter().take(8) {
+                    av.push(*x);
+                }
+                r.data(av)
+            } else {
+                r.data(own(|| v.clone()))
+            }
+        }
+        // a datum that has no response form: a string with non-ASCII bytes, an empty list (either list type)
+        Plan::Bad => match alt() % 3 {
+            0 => r.data(&b"caf\xc3\xa9"[..]),
+            1 => r.data(ArrayVec::<i32, 4>::new()),
+            _ => r.data(own(Vec::<u8>::new)),
+        },
         Plan::Raw => r.data(Character(it)),
     };
 }
